@@ -1,4 +1,5 @@
 """C02: decryption inverts, rejects every forgery, wipes (15 families)."""
+from core import Cfg
 from props._gen import run_matrix, replay_generic, diverse_specs, wide_specs, with_args, H
 
 RULE = ('per case: one family of 15 (one-shot, incremental, masked, SIV, ISAP x 3), a fresh key/nonce/AD/message; the '
@@ -16,7 +17,8 @@ def harnesses():
 
 
 def run(ctx):
-    specs = wide_specs() if ctx.thorough else diverse_specs()
+    # quick: every backend once (diverse_specs) plus the share counts those five leave out on the portable C backends
+    specs = wide_specs() if ctx.thorough else diverse_specs() + [(Cfg('c64', (4, 2, 4)), 'rel'), (Cfg('c32', (3, 3, 3)), 'rel')]
     return run_matrix(ctx, harnesses(), specs, RULE, assumptions=ASSUME)
 
 
